@@ -71,6 +71,9 @@ def spec_part(ctx):
             missing = [a for a in need if r.coverage.get(a, (0, 0))[1] == 0]     # (new states, transitions)
             if missing:
                 raise common.Infra("vacuous model: actions never taken: %s" % missing)
+            # TLC reports new-states:transitions per action; tlc_stats keeps the first number, which is 0 for an
+            # action whose successors Parse had already produced - the transitions are the vacuity evidence
+            ctx.cov["action_transitions"] = {a: r.coverage[a][1] for a in need}
     # the invariants are not vacuous: on the model of the code AS SHIPPED, TLC finds both registered defects
     for cfg, want in (("MC_IniStore_shipfind.cfg", ("Inv_LookupS", "Inv_SetGet")),
                       ("MC_IniStore_shipgen.cfg", ("GenRespectsCap",))):
